@@ -38,6 +38,10 @@ CHECKS = {
    technique="stateless model checking of thread interleavings on the real ProgressBar code under a cooperative settrace scheduler (iterative preemption bounding 0..2/3, virtual timer firing at any scheduling point, horizon 3 firings), plus exhaustive fault-point enumeration per API",
    text="All interleavings of the calling thread with the progress timer's callbacks at source-line granularity with at most 2 (quick) / 3 (thorough) preemptions and at most 3 timer firings are executed on the real oqupy.util.ProgressBar for three drivers; in the terminal state no timer may be armed, nothing may have been written to the stream after exit() returned, no deadlock, no exception. For 9 APIs x 4 progress types x every (quick: strided above 60) invocation index of every user callable, and 4 structural faults, an exception is propagated out of the call and no timer may remain armed. Leaks in the three functions that use enter()/exit() without try/finally are recorded as known findings.",
    note="Scheduling points are source lines of oqupy/util.py only; timers/locks/events of oqupy.util are replaced by cooperative stand-ins; byte-code-level preemption within a line and real OS scheduling are outside the model (a free-running smoke run with the real Timer is reported, not counted)."),
+ "C08": dict(category="exploration", design="4/C08",
+   technique="exhaustive product of small alphabets (steps x parameters x parameterised model x environment set x target x derivative kind x parameter table) through the real state_gradient, every gradient entry compared with an independent forward-mode derivative (expm_frechet) of a first-principles simulation",
+   text="Every member of the full product (quick 2092 / thorough ~11k cases: N in 1..3(4), M in 1..3, H / rate / jump-operator parameter dependence, one / commuting / non-commuting / three environments built as exact ancilla process tensors and PT-TEMPO, both list orders, matrix and callable targets, user-supplied and numdifftools propagator derivatives, generic and symmetric parameter tables, d=3, non-zero start time, capped process tensors) is run through state_gradient; each of the 2N x M gradient entries, every reported state, final_state and the time axis are compared with an independent oracle (own Lindbladian derivative + scipy expm_frechet pushed through a joint system+ancilla simulation, cross-checked by a second plain-numpy contraction). Bounded-exhaustive over the alphabet only.",
+   note="Tolerances 1e-11 (user derivatives) / 1e-8 (numdifftools) with >=300x measured head-room; trusts scipy expm/expm_frechet and mc/refmodel.py. PT-TEMPO process tensors need N>=2."),
 }
 NOT_YET = "check not built yet in this round (see DESIGN.md sec. 8 build order)"
 
